@@ -231,6 +231,7 @@ func runGoSemStream(c *Ctx, n int) {
 	runGoSemBayesStream(c, n/4+1) // compare.Ordered / dict.SortedKeys on byte strings, sets, map ranges, the counting statements of bayes.Model.update (gosem_bayes.go)
 	runGoSemFmtStream(c, n/2+1)   // io.Writer, fmt's padding, strings.Join, Time.Format (gosem_fmt.go)
 	runGoSemBeanStream(c, n/4+1)  // strings.HasPrefix, the regexp [^a-zA-Z], compare.Sort's guarantee, printer.New(w) and w as one sink (gosem_bean.go)
+	runGoSemMappingStream(c, n/4+1) // strings.TrimPrefix, a *regexp.Regexp as nil or the pure predicate MatchString (gosem_mapping.go)
 	runGoSemFloatStream(c, n/4+1) // float64 as an exact rational on dyadic operands, x/0 as `undef` (gosem_float.go)
 	runGoSemTableStream(c, n/4+1) // (*color.Color).Fprintf, make([]T, n), encoding/csv.Writer (gosem_table.go)
 	runGoSemParseStream(c, n/4+1) // time.Parse("2006-01-02"), decimal.NewFromString, Range.Extract read as a text (gosem_parse.go)
